@@ -26,7 +26,7 @@ try:
     gm = re.sub(r'=> \S+', '=> ' + wt, gm)
     open(os.path.join(dwork, 'go.mod'), 'w').write(gm)
     shutil.copy('/repo/go.sum', os.path.join(dwork, 'go.sum'))
-    d0 = sh('go test -count=1 ./...', cwd=dwork)
+    d0 = sh('go test ' + os.environ.get('DEMO_FLAGS','') + ' -count=1 ./...', cwd=dwork)
     ran.append(f'demo on the untouched tree: exit {d0.returncode}')
     if d0.returncode != 0:
         print(d0.stdout[-1500:]); raise SystemExit('demo does not pass on the untouched tree')
@@ -37,7 +37,7 @@ try:
     ran.append('pinned suite with the change: ' + s.stdout.strip().splitlines()[0])
     if s.returncode != 0:
         print(s.stdout); raise SystemExit('suite fails with the change')
-    d1 = sh('go test -count=1 ./...', cwd=dwork)
+    d1 = sh('go test ' + os.environ.get('DEMO_FLAGS','') + ' -count=1 ./...', cwd=dwork)
     ran.append(f'demo with the change: exit {d1.returncode}')
     if d1.returncode == 0:
         raise SystemExit('demo does not fail with the change')
